@@ -59,4 +59,18 @@ def cmdFc (req : String) : String :=
           (match p.renameAll with | none => "-" | some c => sCase c) ++ ")"
   | _ => "bad-op"
 
+/-- `fd <cf 0|1> <field>...`, field := comma-joined list of `s` (skip) `i` (ignore) `f` (format) `u` (unreadable), `-` for no attribute.
+Answer: `ok` | `err`. -/
+def cmdFd (args : List String) : String :=
+  match args with
+  | cf :: fields =>
+    let dF (s : String) : Option (List FA) :=
+      if s == "-" then some [] else
+      (s.splitOn ",").mapM fun (a : String) => match a with
+        | "s" => some (FA.skip false) | "i" => some (FA.skip true) | "f" => some FA.fmt | "u" => some FA.unreadable | _ => none
+    match fields.mapM dF with
+    | some fs => if debugFieldsOk (cf == "1") fs then "ok" else "err"
+    | none => "bad-op"
+  | _ => "bad-op"
+
 end Dm.FcCmd
